@@ -22,7 +22,7 @@ def claim(pid, category, text, note, technique, design_ref):
 TB = "trusted: rustc's type checker and name resolution, the ndv-export exporter, the exact term rewriter in ndvlib/poly.py, the grading/differential tables of DESIGN.md Appendix A"
 
 claim("C01", "proof",
-      "Static proof over the reals: every closed form f0..f3 of the 24 elementary functions (as instantiated for each of the 8 types) is the function and its successive derivatives (formal differentiation of the code's own canonical form), every chain rule is the truncated Faa di Bruno formula, and every whole method (all parts, all presence patterns, all decision-tree paths) equals the formal derivatives of its real function; abs/signum/abs_sub branch on the real part. The dual-with-float operator forms the closed forms apply to values of the inner number type (all 40 generated forms per type) are the operation with the float lifted to a constant. The floating-point error bound of the statement is NOT decided.",
+      "Static proof over the reals: every closed form f0..f3 of the 24 elementary functions (as instantiated for each of the 8 types) is the function and its successive derivatives (formal differentiation of the code's own canonical form), every chain rule is the truncated Faa di Bruno formula, and every whole method (all parts, all presence patterns, all decision-tree paths) equals the formal derivatives of its real function; abs/signum/abs_sub branch on the real part. The dual-with-float operator forms the closed forms apply to values of the inner number type (all 40 generated forms per type) are the operation with the float lifted to a constant. The Python classes' methods for these functions forward to the Rust item of the same meaning (python configuration). The floating-point error bound of the statement is NOT decided.",
       TB + "; identities hold over the reals, rounding and domains of definition are not analysed",
       "abstract interpretation of typed HIR to exact canonical forms + formal differentiation (no execution, no solver)",
       "DESIGN.md 5.C01")
@@ -43,7 +43,7 @@ claim("C08", "proof",
       "abstract interpretation of typed HIR to exact canonical forms; impl table enumeration with floor 320",
       "DESIGN.md 5.C08")
 claim("C09", "proof",
-      "Static proof over the reals: powi/powf in every decision-tree arm (n=0, 1, 2 / |n-2|<eps, general symbolic n, negative n) equal the formal derivatives of x^n in all parts; powd (every path) equals the lifting of exp(n ln x) in base and exponent; recip/sqrt/cbrt agree with the power forms; the power items of nalgebra's ComplexField impls (powi, powf and powc with a DUAL exponent, sqrt, cbrt, recip) equal the same liftings; sound interval analysis shows every i32 sub-expression of powi stays in range for |n| <= 2^30 (violations only with an exact witness); float instances forward to std. Float overflow/underflow of x^(n-3) is NOT decided.",
+      "Static proof over the reals: powi/powf in every decision-tree arm (n=0, 1, 2 / |n-2|<eps, general symbolic n, negative n) equal the formal derivatives of x^n in all parts; powd (every path) equals the lifting of exp(n ln x) in base and exponent; recip/sqrt/cbrt agree with the power forms; the power items of nalgebra's ComplexField impls (powi, powf and powc with a DUAL exponent, sqrt, cbrt, recip) equal the same liftings; sound interval analysis shows every i32 sub-expression of powi stays in range for |n| <= 2^30 (violations only with an exact witness); float instances forward to std. The Python classes' powi/powf/powd/sqrt/cbrt/recip forward to the same Rust items. Float overflow/underflow of x^(n-3) is NOT decided.",
       TB,
       "abstract interpretation with symbolic exponent + integer interval analysis on typed HIR",
       "DESIGN.md 5.C09")
@@ -111,7 +111,7 @@ claim("C14", "other",
       "real-function abstract interpretation per region + parity check by substitution + exact series bounds",
       "DESIGN.md 5.C14")
 claim("C15", "proof",
-      "Static proof over the reals for the dual impl (as instantiated for the 8 types) and both float impls: the closed-form arm is the definition of j0, j1, j2; the small-argument arm is the Maclaurin truncation and is adequate (exact rational bound <= 2^-50 for |x| < eps) for every derivative order the type carries, and up to total order 4 for nested types; the switch is symmetric in the sign of the argument, is the same condition in the dual impl and in both float instances (the machine epsilon of the instance's own float type), and both arms have the parity of the function; dual and float siblings agree arm by arm; in dual arithmetic both arms are the lifting of their real function (all parts, presence patterns). Every operator form both arms are built from (including the dual-with-float forms acting on the inner type) is the truncated-algebra operation. Rounding in the closed form near the switch is NOT decided.",
+      "Static proof over the reals for the dual impl (as instantiated for the 8 types) and both float impls: the closed-form arm is the definition of j0, j1, j2; the small-argument arm is the Maclaurin truncation and is adequate (exact rational bound <= 2^-50 for |x| < eps) for every derivative order the type carries, and up to total order 4 for nested types; the switch is symmetric in the sign of the argument, is the same condition in the dual impl and in both float instances (the machine epsilon of the instance's own float type), and both arms have the parity of the function; dual and float siblings agree arm by arm; in dual arithmetic both arms are the lifting of their real function (all parts, presence patterns). Every operator form both arms are built from (including the dual-with-float forms acting on the inner type) is the truncated-algebra operation. The Python classes' sph_j* methods forward to the Rust items of the same name. Rounding in the closed form near the switch is NOT decided.",
       TB + "; Maclaurin tables computed in ndvlib/series.py",
       "real-function and canonical-form abstract interpretation + exact Maclaurin comparison",
       "DESIGN.md 5.C15")
